@@ -124,8 +124,10 @@ class Variant:
             if conc:
                 self.conc_failure = (p.returncode, p.stderr.decode(errors="replace")[-3000:])
                 return ob
-            if restarts > 200:
-                raise Inconclusive("runner restarted too often: " + p.stderr.decode(errors="replace")[-500:])
+            if restarts > 60:
+                # too many parses that crash or do not return: what has been observed so far (incl. those) is validated,
+                # the rest of this variant's plan is dropped
+                self.truncated = True
             err = p.stderr.decode(errors="replace")
             status = {98: "timeout", 97: "oom"}.get(p.returncode, "crash")
             if status == "crash":
@@ -142,6 +144,8 @@ class Variant:
             with open(ob, "a") as f:
                 f.write(json.dumps(o) + "\n")
             skip = done + 1
+            if getattr(self, "truncated", False):
+                break
         if debug_out:
             dbg.close()
         return ob
